@@ -241,7 +241,7 @@ func c17Eval(p *vreport.Part, c c17Case, bound int) {
 			p.Violation(kind, "case "+sc.Name+": "+detail+fmt.Sprintf(" | log=%v schedule=%v", obs.Log, r.Choices), cc)
 		}
 		if r.Diverged != "" || r.StepLimit || r.Deadlock || len(r.Panics) > 0 {
-			report("HARNESS execution did not complete normally", r.String()+strings.Join(r.Panics, "\n"))
+			report("HARNESS execution did not complete normally", r.String()+strings.Join(r.Panics, "\n")+r.StepLimitStack)
 			return
 		}
 		var resp []hpFrame
